@@ -350,10 +350,24 @@ pub fn note(v: usize) {
 }
 
 /// Assert that no deferred violation was recorded (called by `finish`).
+///
+/// Several classes may be recorded at once (a Pending return that skipped a woken child is both
+/// "woken, not polled" and a lost wake-up for the fresh task waker). Kani's `assert!` is
+/// assert-then-assume, so a failing assertion would hide the ones behind it and the check of the
+/// property tagged on the later one would stay silent (seeded change C20-m2). The class to report
+/// is therefore the solver's choice: every recorded class is reachable on its own path.
 pub fn report() {
     let w = w();
-    assert!(!w.viol[V_OUTSIDE], "C03: child polled outside its owner's poll");
-    if w.viol[V_AFTER_DONE] {
+    let v = &w.viol;
+    if !(v[0] || v[1] || v[2] || v[3] || v[4] || v[5] || v[6] || v[7] || v[8] || v[9]) {
+        return;
+    }
+    let pick = any_u8() as usize;
+    assume(pick < NV);
+    if pick == V_OUTSIDE {
+        assert!(!w.viol[V_OUTSIDE], "C03: child polled outside its owner's poll");
+    }
+    if pick == V_AFTER_DONE && w.viol[V_AFTER_DONE] {
         if w.short == 4 {
             assert!(false, "C03/C07: child polled again after it completed (failed)");
         } else if w.sequential && w.n == 2 && !w.seq_is_chain {
@@ -362,7 +376,7 @@ pub fn report() {
             assert!(false, "C03: child polled after it completed");
         }
     }
-    if w.viol[V_AFTER_DECIDED] {
+    if pick == V_AFTER_DECIDED && w.viol[V_AFTER_DECIDED] {
         // the short-circuit clause is also part of the family's own property
         match w.short {
             1 => assert!(false, "C03/C06: child polled after the race was decided"),
@@ -371,20 +385,28 @@ pub fn report() {
             _ => assert!(false, "C03: child polled after the combinator produced its final result"),
         }
     }
-    assert!(
-        !w.viol[V_TOO_EARLY],
-        "C10/C19: child polled before every earlier child had finished"
-    );
-    assert!(
-        !w.viol[V_REMOVED],
-        "C03/C11/C12: member polled after it was removed from its group"
-    );
-    assert!(!w.viol[V_AFTER_DROP], "C02/C03: child polled after it was dropped");
-    assert!(
-        !w.viol[V_C16],
-        "C16: pending child re-polled although none of its wakers fired"
-    );
-    if w.viol[V_LOST_WAKE] {
+    if pick == V_TOO_EARLY {
+        assert!(
+            !w.viol[V_TOO_EARLY],
+            "C10/C19: child polled before every earlier child had finished"
+        );
+    }
+    if pick == V_REMOVED {
+        assert!(
+            !w.viol[V_REMOVED],
+            "C03/C11/C12: member polled after it was removed from its group"
+        );
+    }
+    if pick == V_AFTER_DROP {
+        assert!(!w.viol[V_AFTER_DROP], "C02/C03: child polled after it was dropped");
+    }
+    if pick == V_C16 {
+        assert!(
+            !w.viol[V_C16],
+            "C16: pending child re-polled although none of its wakers fired"
+        );
+    }
+    if pick == V_LOST_WAKE && w.viol[V_LOST_WAKE] {
         // in a group a lost wake-up means the member's output / items are never yielded
         // ("across any interleaving of ... polling and child wake-ups")
         match w.group_fam {
@@ -393,7 +415,7 @@ pub fn report() {
             _ => assert!(false, "C01: child woke its waker but the task that last polled the combinator was not woken"),
         }
     }
-    if w.viol[V_NOT_STARTED] {
+    if pick == V_NOT_STARTED && w.viol[V_NOT_STARTED] {
         // in a group a member that was never polled holds no waker: nothing can ever make the
         // group poll it, so its output / items are never yielded
         match w.group_fam {
@@ -402,7 +424,7 @@ pub fn report() {
             _ => assert!(false, "C20: combinator returned Pending although a child was never polled"),
         }
     }
-    if w.viol[V_WOKEN_NOT_POLLED] {
+    if pick == V_WOKEN_NOT_POLLED && w.viol[V_WOKEN_NOT_POLLED] {
         // race / race_ok have no readiness tracking: they must look at every live child in every
         // poll, otherwise they do not resolve "in the first poll in which a child resolves"
         match w.group_fam {
